@@ -36,6 +36,7 @@ import (
 	"github.com/verily-src/fhirpath-go/fhirpath"
 	"github.com/verily-src/fhirpath-go/fhirpath/compopts"
 	"github.com/verily-src/fhirpath-go/fhirpath/evalopts"
+	"github.com/verily-src/fhirpath-go/fhirpath/internal/compile"
 	"github.com/verily-src/fhirpath-go/fhirpath/internal/expr"
 	"github.com/verily-src/fhirpath-go/fhirpath/internal/funcs"
 	"github.com/verily-src/fhirpath-go/fhirpath/internal/funcs/impl"
@@ -85,22 +86,22 @@ func customFn(in system.Collection, x any) (system.Collection, error) {
 // entry). It always returns a private copy and never writes into a map the
 // implementation handed out.
 func tableFor(cfg string) funcs.FunctionTable {
-	src := funcs.Clone()
+	// the table Compile itself resolves names in for this configuration: compile.PopulateConfig folds the very
+	// options the configuration passes to Compile (no reconstruction from the tables' internals)
+	var options []fhirpath.CompileOption
 	if cfg == "experimental" || cfg == "custom" {
-		src = funcs.AddExperimentalFuncs(src)
-	}
-	t := make(funcs.FunctionTable, len(src)+1)
-	for k, v := range src {
-		t[k] = v
+		options = append(options, compopts.WithExperimentalFuncs())
 	}
 	if cfg == "custom" {
-		if _, taken := t[CustomName]; !taken {
-			f, err := funcs.ToFunction(customFn)
-			if err != nil {
-				lib.Fatal("custom function: %v", err)
-			}
-			t[CustomName] = f
-		}
+		options = append(options, compopts.AddFunction(CustomName, customFn))
+	}
+	config, err := compile.PopulateConfig(options...)
+	if err != nil {
+		lib.Fatal("configuration %s: %v", cfg, err)
+	}
+	t := make(funcs.FunctionTable, len(config.Table))
+	for k, v := range config.Table {
+		t[k] = v
 	}
 	return t
 }
